@@ -1,6 +1,7 @@
 package props
 
 import (
+	"encoding/json"
 	"fmt"
 	"math"
 	"math/big"
@@ -16,9 +17,9 @@ import (
 
 func init() {
 	core.Register(&core.Prop{
-		ID:    "C17",
-		Level: "exploration",
-		Rule: "EXHAUSTIVE pairs over the numeric universe N = {-12..12} + {+-2^31, +-(2^53-1), +-2^53} + {k/4 : -48<=k<=48} + numeric strings {\"7\",\"-3\",\"2.50\",\"0\"} + {nil, \"x\", \"\", \"1e\"} (about 150 values, 22k ordered pairs) x the nine numeric filters, operands bound as variables in PRNG-chosen integer/float widths and spelled as literals; expected values from exact rational arithmetic (math/big). Plus PRNG chains of 2..5 numeric filters evaluated stepwise exactly, and the identities a+b-b=a, (a*b)/b=a; float32 operands that are not short decimals (1/3, 0.1, 2^53, 3.4e38, ...) through operations whose exact result is a float64. Non-trivial = both operands numeric and not both zero; distinct = distinct (filter, operands).",
+		ID:         "C17",
+		Level:      "exploration",
+		Rule:       "EXHAUSTIVE pairs over the numeric universe N = {-12..12} + {+-2^31, +-(2^53-1), +-2^53} + {k/4 : -48<=k<=48} + numeric strings {\"7\",\"-3\",\"2.50\",\"0\"} + {nil, \"x\", \"\", \"1e\"} (about 150 values, 22k ordered pairs) x the nine numeric filters, operands bound as variables in PRNG-chosen integer/float widths and spelled as literals; expected values from exact rational arithmetic (math/big). Plus PRNG chains of 2..5 numeric filters evaluated stepwise exactly, and the identities a+b-b=a, (a*b)/b=a; float32 operands that are not short decimals (1/3, 0.1, 2^53, 3.4e38, ...) through operations whose exact result is a float64. Non-trivial = both operands numeric and not both zero; distinct = distinct (filter, operands).",
 		Exhaustive: func(string) bool { return true },
 		Assumptions: []string{
 			"divided_by with an integer divisor: any integer q with |a/b - q| < 1 is accepted (truncation and floor are both 'integer division'); modulo: any r with |r| < |b| and (a-r)/b integral",
@@ -158,7 +159,7 @@ func runC17(c *core.Ctx) {
 				continue
 			}
 			r := c.Rand(idx)
-			ga := gen.Realise(va, r, gen.Rep{Widths: true, Unsigned: true}, false)
+			ga := gen.Realise(va, r, gen.Rep{Widths: true, Unsigned: true, Named: true}, false)
 			if !c.Begin(fmt.Sprintf("unary:%s(%s)", f, gen.Describe(ga))) {
 				continue
 			}
@@ -179,7 +180,7 @@ func runC17(c *core.Ctx) {
 					continue
 				}
 				r := c.Rand(idx)
-				rep := gen.Rep{Widths: idx%3 != 0, Unsigned: idx%2 == 0}
+				rep := gen.Rep{Widths: idx%3 != 0, Unsigned: idx%2 == 0, Named: idx%5 == 0}
 				ga := gen.Realise(va, r, rep, false)
 				gb := gen.Realise(vb, r, rep, false)
 				if !c.Begin(fmt.Sprintf("binary:%s(%s,%s)", f, gen.Describe(ga), gen.Describe(gb))) {
@@ -241,6 +242,26 @@ func runC17(c *core.Ctx) {
 					c.Violate("non-numeric-operand|round-places", "a string (or collection) operand that does not spell a number must be reported as an error, not replaced by a default",
 						map[string]any{"a": gen.Describe(recv), "places": gen.Describe(places), "observed_variable": res.Brief(), "observed_literal": lit.Brief()})
 				}
+			}
+		}
+	}
+	// ---- numbers that arrive as json.Number, uintptr or unsigned values beyond the int64 range -----------------------------
+	if c.Shard == 11%c.NShards && c.Begin("unusual numeric types") {
+		for _, cs := range []struct {
+			src  string
+			b    map[string]any
+			want string
+		}{{"{{ 14 | divided_by: d }}|{{ 14 | modulo: d }}|{{ d | plus: 1 }}|{{ d | times: 2 }}", map[string]any{"d": json.Number("7")}, "2|0|8|14"}, {"{{ 5 | divided_by: d }}|{{ d | plus: 0.5 }}", map[string]any{"d": json.Number("2.5")}, "2|3"},
+			{"{{ 14 | divided_by: d }}|{{ d | minus: 1 }}", map[string]any{"d": uintptr(7)}, "2|6"}, {"{{ 14 | divided_by: d }}|{{ 14.0 | divided_by: d }}", map[string]any{"d": gen.NInt(4)}, "3|3"}, {"{{ 14 | divided_by: d }}", map[string]any{"d": gen.NFloat(4)}, "3.5"},
+			{"{{ 5 | divided_by: d }}|{{ -5 | divided_by: d }}", map[string]any{"d": uint64(math.MaxUint64)}, "0|0"}, {"{{ 5 | divided_by: d }}", map[string]any{"d": uint64(1) << 63}, "0"}, {"{{ 7 | divided_by: d }}", map[string]any{"d": gen.NUint(2)}, "3"},
+			{"{{ d | divided_by: 2 }}|{{ d | abs }}", map[string]any{"d": gen.NTitle("9")}, "4|9"}} {
+			res := core.Run(e, cs.src, cs.b)
+			c.Eval(1)
+			c.Obs("unusual_numeric_type_cases", 1)
+			c.Distinct("unusualnum", cs.src, gen.DescribeEnv(cs.b))
+			if !res.OK() || res.Out != cs.want {
+				c.Violate("unusual-numeric-type|"+strings.Fields(cs.src)[3], "a number is a number whatever Go type carries it (json.Number, named numeric types, uintptr, unsigned values beyond the int64 range, a named string that spells one as receiver)",
+					map[string]any{"source": cs.src, "bindings": gen.DescribeEnv(cs.b), "expected": cs.want, "observed": res.Brief()})
 			}
 		}
 	}
